@@ -3768,17 +3768,14 @@ func (d *cborDecDriverBytes) decTagBigFloatAsFloat(decimal bool) (f float64) {
 	mant := d.decTagInteger()
 	if decimal {
 
-		rf := readFloatResult{exp: int8(exp)}
-		if mant >= 0 {
-			rf.mantissa = uint64(mant)
-		} else {
-			rf.neg = true
-			rf.mantissa = uint64(-mant)
-		}
-		f, _ = parseFloat64_reader(rf)
-
+		f = decimalFraction64(mant, exp)
 	} else {
 
+		if exp > 1<<20 {
+			exp = 1 << 20
+		} else if exp < -(1 << 20) {
+			exp = -(1 << 20)
+		}
 		bfm := new(big.Float).SetPrec(64).SetInt64(mant)
 		bf := new(big.Float).SetPrec(64).SetMantExp(bfm, int(exp))
 		f, _ = bf.Float64()
@@ -7830,17 +7827,14 @@ func (d *cborDecDriverIO) decTagBigFloatAsFloat(decimal bool) (f float64) {
 	mant := d.decTagInteger()
 	if decimal {
 
-		rf := readFloatResult{exp: int8(exp)}
-		if mant >= 0 {
-			rf.mantissa = uint64(mant)
-		} else {
-			rf.neg = true
-			rf.mantissa = uint64(-mant)
-		}
-		f, _ = parseFloat64_reader(rf)
-
+		f = decimalFraction64(mant, exp)
 	} else {
 
+		if exp > 1<<20 {
+			exp = 1 << 20
+		} else if exp < -(1 << 20) {
+			exp = -(1 << 20)
+		}
 		bfm := new(big.Float).SetPrec(64).SetInt64(mant)
 		bf := new(big.Float).SetPrec(64).SetMantExp(bfm, int(exp))
 		f, _ = bf.Float64()
